@@ -432,4 +432,5 @@ def run(ctx, rep):
     rule_pipe(ctx, rep)
     from rules import c08_trivia, c08_endif
     c08_trivia.run(ctx, rep)
+    c08_trivia.run_glue(ctx, rep)
     c08_endif.run(ctx, rep)
